@@ -117,6 +117,34 @@ def collect(cfg):
             sets.append({"e": e, "len": ln, "list": _ints(s), "epoch_after": int(s.epoch)})
             rec["n_epochs"] += 1
         rec["sets"] = sets
+        # ---- the current epoch is looked at without being consumed (what len() of a bucketing loader does), THEN
+        # the epoch attribute is moved (resuming from a checkpoint): what comes next is the epoch the attribute names
+        peeks = []
+        s = _make(cfg, 0)
+        rec["n_ctor"] += 1
+        for e in cfg.get("set_epochs", []):
+            _ints(s.get_samples_for_epoch(int(s.epoch)))
+            s.epoch = e
+            peeks.append({"e": e, "list": _ints(s), "epoch_after": int(s.epoch)})
+            rec["n_epochs"] += 1
+        rec["peeks"] = peeks
+        # ---- the object is serialised between epochs (checkpointing: pickle; copying a loader: deepcopy); the LIVE
+        # object goes on exactly as before and the copy continues from the same state
+        import copy
+        import pickle
+
+        s = _make(cfg, 0)
+        rec["n_ctor"] += 1
+        ser = {"live": [], "copies": []}
+        for e in range(min(E, 3)):
+            if e % 2 == 0:
+                twin = pickle.loads(pickle.dumps(s))
+            else:
+                twin = copy.deepcopy(s)
+            ser["copies"].append({"e": int(twin.epoch), "len": len(twin), "list": _ints(twin)})
+            ser["live"].append({"e": int(s.epoch), "len": len(s), "list": _ints(s)})
+            rec["n_epochs"] += 2
+        rec["serialised"] = ser
         # ---- an abandoned iterator consumes its epoch
         p = cfg.get("partial")
         if p is not None:
